@@ -5,7 +5,10 @@ CHECK = {
     # two modes = two processes per variant, so that a sanitizer halt in the futex part cannot mask the
     # task / future / cancellable part (and vice versa)
     "runs": three("c13_coroutine", [], scales=(0.6, 0.8, 1.5), mode="mix")
-            + three("c13_coroutine", [], scales=(0.5, 0.7, 1.5), mode="futex"),
+            + three("c13_coroutine", [], scales=(0.5, 0.7, 1.5), mode="futex")
+            # Cancellable whose inner task inherits its executor through the proxy coroutine (own process: on a
+            # tree with defect e this dies with a null executor dereference)
+            + three("c13_coroutine", [], scales=(0.6, 0.8, 1.5), mode="mixinherit"),
     "parallel": 3,
     "design_ref": "DESIGN.md §5 C13, §6",
     "technique": "coroutine workloads on thread-pool executors with online monitors (in-frame flag, suspend/resume "
@@ -42,7 +45,7 @@ CHECK = {
                         "point:fut:on_finish_lost_to_sealed", "point:dbox:take_won"],
     "not_decidable": ["memory-order strength of DepositBox::take (relaxed CAS) on x86 beyond what TSan models",
                       "unbounded liveness (restated as bounded progress, stuck rule)"],
-    "assumptions": ["inner task of a Cancellable carries an explicit executor (as in the repo's tests)",
+    "assumptions": ["mode mix: inner task of a Cancellable carries an explicit executor (as in the repo's tests); mode mixinherit drops that",
                     "futex word written through atomic_value() only",
                     "liveness restated as bounded progress: grace 12 s (quick) / 30 s (thorough)"],
 }
